@@ -75,7 +75,7 @@ func partialRulesSSA(r *Run, scopeRule, onceRule, dataRule, orderRule string) {
 		return
 	}
 	inline := func(caller, callee *ssa.Function) bool {
-		return pkgOf(callee) == fn.Pkg && callee != fn && fnObject(callee) != nil && !fnObject(callee).Exported()
+		return pkgOf(callee) == fn.Pkg && callee != fn && (callee.Parent() != nil || (fnObject(callee) != nil && !fnObject(callee).Exported()))
 	}
 	pw := &pathWalker{inline: inline, unroll1: true, maxPaths: 100000, maxDepth: 5, iterCopies: true}
 	pw.walk(fn)
@@ -444,7 +444,7 @@ func blockWithOnceRuleSSA(r *Run, rule string) {
 		}
 		n++
 		inline := func(caller, callee *ssa.Function) bool {
-			return pkgOf(callee) == fn.Pkg && callee != m.block && callee != m.sink && fnObject(callee) != nil && !fnObject(callee).Exported()
+			return pkgOf(callee) == fn.Pkg && callee != m.block && callee != m.sink && (callee.Parent() != nil || (fnObject(callee) != nil && !fnObject(callee).Exported()))
 		}
 		pw := &pathWalker{inline: inline, unroll1: true, maxPaths: 50000, maxDepth: 5}
 		pw.walk(fn)
